@@ -100,13 +100,13 @@ _SEL_NOTE = ('Finite configuration space enumerated exhaustively through the sol
              'selectors); each configuration runs the real code natively. Four documents covering every directive class; one edit / '
              'perturbation (two non-editing operations in thorough). Other documents and longer sequences are outside the claim.')
 PROPERTIES['C11'] = {
-    'modules': ['harness.tree_props'], 'budget': {'quick': 1200, 'thorough': 3300},
+    'modules': ['harness.tree_props', 'harness.c13_numexpr'], 'budget': {'quick': 1200, 'thorough': 3300},
     'level_text': 'Solver-enumerated configurations (attribution mode x every tree model at any depth x one edit on either side): the deep copy must be equal, '
                   'print the spanned text, share no token, be a complete tree in its own store, and neither side may be affected by an edit of the other.',
     'level_note': _SEL_NOTE,
 }
 PROPERTIES['C20'] = {
-    'modules': ['harness.tree_props'], 'budget': {'quick': 1200, 'thorough': 3300},
+    'modules': ['harness.tree_props', 'harness.c13_numexpr'], 'budget': {'quick': 1200, 'thorough': 3300},
     'level_text': 'Solver-enumerated pairs: same text parsed twice, copy vs original, and copy perturbed by exactly one token text / child / comment '
                   'ownership change at a symbolic place: equal exactly when unperturbed, symmetric, hash-consistent for tokens.',
     'level_note': _SEL_NOTE,
